@@ -7,6 +7,7 @@ u32le, payload) and the argument-count rule min(allowed, floor(len/4))."""
 from ..core import check
 
 ID = "C15"
+IMPORTS = ['rig.machine_control.packets']
 LEVEL = "exploration"
 TECHNIQUE = ("runtime post-condition monitor: byte-for-byte comparison with "
              "an independent packer, decode/re-encode round trip")
